@@ -314,6 +314,16 @@ var c20Atoms = []string{
 	`isEmpty(from kids where tags.k = "v")`, `count(from kids where anyOf(owners.name) = "x" sort by label desc skip 1) >= 2`,
 	`not isEmpty(from kids where name != null or n in [1, 2] sort by n, name desc skip 1 limit none)`,
 	`count(from kids where count(from owners where flag and anyOf(roles) = "r" sort by at) > 1) between 1 and 2`,
+	// int64-valued set functions / sub-query counts compared with DECIMAL literals: the typer wraps the whole operand
+	// (sub-query included) in Int64ToFloat64Node; the symbols of the sub-query are then only reachable through the wrapper
+	`count(from kids where name = "x") > 1.5`, `count(from kids where n > 1 sort by label) = 2.0`,
+	`count(from kids where name = "x" or label contains "a") in [1.5, 2]`, `count(from kids where n = 1) not in [2.5]`,
+	`count(from kids where label contains "a" sort by name desc limit 3) between 0.5 and 3.5`,
+	`count(from kids where name != null) not between 0.5 and 1.5`, `count(from kids where tags.k = "v") >= 0.5`,
+	`count(from kids where count(from owners where at != null sort by f) > 0.5) < 2.5`,
+	`count(from kids where isEmpty(from owners where flag)) = 1.0`,
+	`count(kids) = 2.0`, `count(roles) between 0.5 and 3.5`, `count(nums) in [1.5, 2]`, `count(kids.label) < 1.5`, `count(tags) = 2.0`,
+	`1.5 < count(from kids where name = "x")`,
 }
 
 var c20Sorts = []string{``, ``, `sort by name`, `sort by n desc`, `sort by name asc, n desc`, `sort by tags.k`, `sort by boss.name`,
